@@ -66,6 +66,18 @@ func (p *ProjectionPlan) Batch(ctx *ExecuteCtx) ([][]Column, error) {
 	return p.processProjectionBatch(kvps, ctx)
 }
 
+// isNamedField reports whether field i is the field its name refers to. A
+// name resolves to the first field that carries it, so only that field may
+// take the result that is cached under the name.
+func (p *ProjectionPlan) isNamedField(i int) bool {
+	for j := 0; j < i; j++ {
+		if p.FieldNames[j] == p.FieldNames[i] {
+			return false
+		}
+	}
+	return true
+}
+
 func (p *ProjectionPlan) processProjectionBatch(chunk []KVPair, ctx *ExecuteCtx) ([][]Column, error) {
 	var (
 		nFields = len(p.Fields)
@@ -76,7 +88,7 @@ func (p *ProjectionPlan) processProjectionBatch(chunk []KVPair, ctx *ExecuteCtx)
 	)
 	for i := 0; i < nFields; i++ {
 		have = false
-		if ctx != nil {
+		if ctx != nil && p.isNamedField(i) {
 			fname := p.FieldNames[i]
 			cols[i], have = ctx.GetChunkFieldFinalResult(fname)
 		}
@@ -112,7 +124,7 @@ func (p *ProjectionPlan) processProjection(kvp KVPair, ctx *ExecuteCtx) ([]Colum
 	}
 	for i := 0; i < nFields; i++ {
 		have := false
-		if ctx != nil {
+		if ctx != nil && p.isNamedField(i) {
 			fname := p.FieldNames[i]
 			result, have = ctx.GetFieldResult(fname)
 		}
